@@ -122,7 +122,7 @@ func pointOnAreaSurface(poly Polygon) (Point, float64) {
 		// The only way this could happen is if the input Polygon is invalid,
 		// or there is some sort of pathological case. So we just return an
 		// arbitrary point on the Polygon.
-		return poly.ExteriorRing().StartPoint(), 0
+		return poly.ExteriorRing().StartPoint().Force2D(), 0
 	}
 	bestA, bestB := xIntercepts[0], xIntercepts[1]
 	for i := 2; i+1 < len(xIntercepts); i += 2 {
